@@ -30,7 +30,7 @@ import (
 
 var c18mix = []weighted{
 	{"create", 14}, {"delete", 6}, {"pause", 5}, {"readonly", 6}, {"join", 8}, {"leave", 4},
-	{"fail", 10}, {"unfail", 8}, {"sleep", 14}, {"restart", 6}, {"crash", 5}, {"stepdown", 5}, {"snap", 6},
+	{"fail", 10}, {"unfail", 8}, {"sleep", 14}, {"restart", 6}, {"crash", 4}, {"crashfs", 3}, {"stepdown", 5}, {"snap", 6},
 }
 
 func genC18(r *simrt.Rand, tier string, idx int) *hx.Program {
@@ -213,6 +213,10 @@ func execC18(t *testing.T, prog *hx.Program, dec *simrt.Decider, verbose bool) *
 					h.crashNode(0)
 				}
 				up()
+			case "crashfs":
+				// the server dies inside one of its next commit log file operations (the activity
+				// partition's append, index write, checkpoint; a created stream's first files)
+				h.armFSCrash(0, 1+int(op.Arg(1, 0))%5)
 			case "stepdown":
 				if n.up {
 					h.s.Logf("controller loses leadership")
@@ -232,6 +236,7 @@ func execC18(t *testing.T, prog *hx.Program, dec *simrt.Decider, verbose bool) *
 			return
 		}
 		// faults stop; the dispatcher's back-off is capped at 10 s
+		h.disarmFSCrashes()
 		failing = false
 		if !up() {
 			return
